@@ -69,8 +69,9 @@ def _mk_config(J, rule_path, macro_paths, inp, binary, mode):
     )
 
 
-def run_pair(J, rule_path, macro_paths, inp, binary, fresh, want_regex=False, stream_only=False):
-    """All nine observations of one (rule, input) pair."""
+def run_pair(J, rule_path, macro_paths, inp, binary, fresh, want_regex=False, stream_only=False, repeat=False):
+    """All nine observations of one (rule, input) pair.  With `repeat`, the stream (and the full list of matches)
+    is asked for a second time from the SAME MasterOfPuppets object at the end (obs["again"])."""
     obs = {"outcome": "ok", "res": {}}
     stage = "construct"
     try:
@@ -96,6 +97,15 @@ def run_pair(J, rule_path, macro_paths, inp, binary, fresh, want_regex=False, st
             else:
                 mop.match_config = _mk_config(J, rule_path, macro_paths, inp, binary, mode)
             obs["res"]["".join(mode)] = mop.perform_matching()
+        if repeat:
+            stage = "match-again"
+            again = {}
+            mop.match_config = _mk_config(J, rule_path, macro_paths, inp, binary, ("S", "A", "T"))
+            again["stream"] = mop.perform_matching()
+            if not stream_only:
+                mop.match_config = _mk_config(J, rule_path, macro_paths, inp, binary, ("L", "A", "T"))
+                again["LAT"] = mop.perform_matching()
+            obs["again"] = again
     except BaseException as exc:  # pylint: disable=broad-except
         if isinstance(exc, (KeyboardInterrupt, SystemExit)):
             raise
@@ -136,7 +146,7 @@ def run_rule(job, ri, lis, listing_paths, tmp):
                 o = {"outcome": "unavailable", "why": str(exc)}
         else:
             o = run_pair(J, rule_path, macro_paths, inp, binary, job.get("fresh", False),
-                         job.get("want_regex", False), job.get("stream_only", False))
+                         job.get("want_regex", False), job.get("stream_only", False), job.get("repeat", False))
         o["r"], o["l"] = ri, li
         out.append(o)
     for p in ([] if "rule_path" in rule else [rule_path]) + macro_paths[own:]:
@@ -200,7 +210,7 @@ def run_history(job, ops, listing_paths, tmp):
             os.utime(inp, ns=(1_600_000_000_000_000_000, 1_600_000_000_000_000_000))
             if inp not in written:
                 written.append(inp)
-        o = run_pair(J, rule_path, macro_paths, inp, binary, job.get("fresh", False))
+        o = run_pair(J, rule_path, macro_paths, inp, binary, job.get("fresh", False), repeat=job.get("repeat", False))
         o["r"], o["l"] = ri, li
         out.append(o)
         os.unlink(rule_path)
